@@ -200,3 +200,101 @@ VENDORED_MOLECULES = [
     "N#Cc1ccccc1", "CC(C)=O", "OCC(O)CO", "NCC(=O)O", "[NH4+]", "[O-][N+](=O)c1ccccc1", "B(O)(O)c1ccccc1",
     "C[Si](C)(C)C", "CI", "CCl", "CBr", "CF",
 ]
+
+
+# --------------------------------------------------------------------------- generated explicit-hydrogen reactions
+# Reaction schemas written with explicit mapped hydrogens on the changing bonds, a wide element alphabet
+# (two-letter symbols incl. those starting with H, C, N, S ...), and spectator species on both sides.
+_R_GROUPS = ["[CH3:{a}]", "[CH2:{a}][CH3:{b}]", "[SiH3:{a}]", "[Se:{a}][CH3:{b}]", "[SiH:{a}]([CH3:{b}])[CH3:{c}]", "[GeH3:{a}]", "[CH2:{a}][Hg:{b}][Cl:{c}]"]
+_METALS = ["[Hg:{m}][Cl:{x}]", "[Zn:{m}][Cl:{x}]", "[Mg:{m}][Br:{x}]", "[Cd:{m}][I:{x}]", "[Sn:{m}]([CH3:{x}])([CH3:{y}])[CH3:{z}]",
+           "[Hg:{m}][O:{x}][C:{y}]([CH3:{z}])=[O:{w}]", "[Cu:{m}]", "[Li:{m}]"]
+_ACIDS = ["[Cl:{q}]", "[Br:{q}]", "[O:{q}][H:{r}]", "[O:{q}][C:{r}]([CH3:{s}])=[O:{t}]", "[F:{q}]", "[S:{q}][CH3:{r}]", "[O:{q}][CH3:{r}]"]
+_SPECTATORS = ["[H:{a}][H:{b}]", "[OH2:{a}]", "[O:{a}]([H:{b}])[H:{c}]", "[Na+:{a}]", "[Cl-:{a}]", "[He:{a}]", "[Hg:{a}]", "[Hf:{a}]",
+               "[Ho+3:{a}]", "[Hg+2:{a}]", "[Cl:{a}][Hg:{b}][Cl:{c}]", "[NH3:{a}]", "[N:{a}]([H:{b}])([H:{c}])[H:{d}]", "[Ne:{a}]",
+               "[CH4:{a}]", "[C:{a}]([H:{b}])([H:{c}])([H:{d}])[H:{e}]", "[Cl:{a}][H:{b}]", "[K+:{a}].[OH-:{b}]", "[K+:{a}].[O-:{b}][H:{c}]", "[H+:{a}]", "[H-:{a}]", "[H+:{a}].[Cl-:{b}]"]
+
+
+class _Maps:
+    def __init__(self):
+        self.n = 0
+
+    def fill(self, text):
+        import re, string
+        names = sorted(set(re.findall(r"\{(\w)\}", text)))
+        m = {}
+        for k in names:
+            self.n += 1
+            m[k] = self.n
+        return text.format(**m), m
+
+
+def explicit_h_reaction(rng):
+    """One balanced, fully mapped reaction with explicit hydrogens on changing bonds; returns (rsmi, tags)."""
+    import re
+    M = _Maps()
+    kind = rng.choice(["protonolysis", "hydrogenation", "substitution", "hydrometalation", "exchange"])
+    tags = {kind}
+
+    def part(tmpl):
+        t, m = M.fill(tmpl)
+        return t, m
+
+    def head(frag):  # first atom token and the rest
+        mm = re.match(r"(\[[^\]]+\])(.*)", frag)
+        return mm.group(1), mm.group(2)
+
+    if kind == "protonolysis":  # R-M + H-A >> R-H + M-A
+        R_, _ = part(rng.choice(_R_GROUPS)); Mt, _ = part(rng.choice(_METALS)); A, _ = part(rng.choice(_ACIDS))
+        M.n += 1; h = M.n
+        r0, rrest = head(R_); m0, mrest = head(Mt); a0, arest = head(A)
+        # write R as  r0(rest)  so extra bonds attach to r0
+        lhs = [f"{r0}({m0}{mrest}){rrest}" if rrest else f"{r0}{m0}{mrest}", f"[H:{h}]{a0}{arest}"]
+        rhs = [f"{r0}([H:{h}]){rrest}" if rrest else f"{r0}[H:{h}]", f"{a0}({m0}{mrest}){arest}" if arest else f"{a0}{m0}{mrest}"]
+    elif kind == "hydrogenation":  # H-H + X=Y >> H-X-Y-H
+        M.n += 4; a, b, x, y = M.n - 3, M.n - 2, M.n - 1, M.n
+        pair = rng.choice([("[CH2:%d]", "[CH2:%d]"), ("[CH2:%d]", "[O:%d]"), ("[CH2:%d]", "[NH:%d]"), ("[SiH2:%d]", "[CH2:%d]")])
+        X, Y = pair[0] % x, pair[1] % y
+        lhs = [f"[H:{a}][H:{b}]", f"{X}={Y}"]
+        rhs = [f"[H:{a}]{X}{Y}[H:{b}]"]
+    elif kind == "substitution":  # R-O-H + X-R' >> R-O-R' + X-H
+        R_, _ = part(rng.choice(_R_GROUPS)); R2, _ = part(rng.choice(_R_GROUPS))
+        M.n += 3; o, h, x = M.n - 2, M.n - 1, M.n
+        hal = rng.choice(["Cl", "Br", "I"]); chal = rng.choice(["O", "S", "Se", "N"])
+        r0, rrest = head(R_); s0, srest = head(R2)
+        nh = "" if chal != "N" else f"([CH3:{M.n + 1}])"
+        if chal == "N":
+            M.n += 1
+        lhs = [f"[{chal}:{o}]([H:{h}]){nh}{r0}{rrest}", f"[{hal}:{x}]{s0}{srest}"]
+        rhs = [f"[{chal}:{o}]({s0}{srest}){nh}{r0}{rrest}", f"[{hal}:{x}][H:{h}]"]
+    elif kind == "hydrometalation":  # M-H + C=C >> M-C-C-H
+        M.n += 4; m, h, x, y = M.n - 3, M.n - 2, M.n - 1, M.n
+        metal = rng.choice(["[Hg:%d]", "[SnH2:%d]", "[Hf:%d]", "[GeH2:%d]", "[Zr:%d]", "[Cu:%d]", "[SiH2:%d]"]) % m
+        lig = ""
+        if rng.random() < 0.5:
+            M.n += 1
+            lig = f"([Cl:{M.n}])"
+        lhs = [f"{metal}{lig}[H:{h}]", f"[CH2:{x}]=[CH2:{y}]"]
+        rhs = [f"{metal}{lig}[CH2:{x}][CH2:{y}][H:{h}]"]
+    else:  # exchange  A-H + B-D >> A-D + B-H  over heteroatoms (D = deuterium-free: a second hydrogen)
+        M.n += 4; a, h1, b, h2 = M.n - 3, M.n - 2, M.n - 1, M.n
+        A = rng.choice(["[O:%d]", "[S:%d]", "[Se:%d]"]) % a
+        B = rng.choice(["[Cl:%d]", "[Br:%d]", "[F:%d]"]) % b
+        M.n += 1; c = M.n
+        lhs = [f"[CH3:{c}]{A}[H:{h1}]", f"{B}[H:{h2}]"]
+        rhs = [f"[CH3:{c}]{A}[H:{h2}]", f"{B}[H:{h1}]"]
+    nspec = rng.choice([0, 0, 1, 1, 2, 3])
+    for _ in range(nspec):
+        s, _m = part(rng.choice(_SPECTATORS))
+        tags.add("spectator")
+        if "[H:" in s and re.fullmatch(r"\[H:\d+\]\[H:\d+\]", s):
+            tags.add("spectator_h2")
+        elif "[H:" in s:
+            tags.add("spectator_explicit_h")
+        if "[H+:" in s or "[H-:" in s:
+            tags.add("spectator_bare_h")
+        lhs.append(s); rhs.append(s)
+    txt = ".".join(lhs) + ">>" + ".".join(rhs)
+    for el in ("Hg", "Hf", "Ho", "He"):
+        if "[" + el in txt:
+            tags.add("element_starting_with_H")
+    return txt, tags
